@@ -1,1 +1,52 @@
 //! Hooks owned by property C14 (feature `verif-hooks`).
+//!
+//! Every type check records, just before `find_compilation_order` runs, the
+//! reference graph the order is computed from together with the result of
+//! `find_compilation_order` on that graph. The record is kept in a
+//! thread-local slot and taken out by the harness after `compile`.
+
+use std::cell::RefCell;
+
+/// What kind of item a node of the reference graph is.
+#[derive(Clone, Copy, Debug, PartialEq, Eq)]
+pub enum NodeKind {
+    Constant,
+    Function,
+    Context,
+    Other,
+}
+
+#[derive(Clone, Debug)]
+pub struct Node {
+    /// fully qualified name (diagnostics only)
+    pub name: String,
+    pub kind: NodeKind,
+}
+
+/// The reference graph with nodes numbered by the rank of their
+/// `ResolvedName` in `Ord` order (which is the iteration order of the
+/// `BTreeMap`/`BTreeSet`s the algorithms walk).
+#[derive(Clone, Debug)]
+pub struct Dump {
+    pub nodes: Vec<Node>,
+    /// `references.references`, keys ascending, targets ascending
+    pub edges: Vec<(usize, Vec<usize>)>,
+    /// `find_compilation_order()`: the order, or the error description
+    pub order: Result<Vec<usize>, String>,
+    /// `tarjan(&references)` itself
+    pub components: Vec<Vec<usize>>,
+}
+
+thread_local! {
+    static LAST: RefCell<Option<Dump>> = const { RefCell::new(None) };
+}
+
+pub fn record(d: Dump) {
+    LAST.with(|l| *l.borrow_mut() = Some(d));
+}
+
+/// Take the record of the last type check on this thread that got as far as
+/// computing a compilation order.
+pub fn take_dump() -> Option<Dump> {
+    LAST.with(|l| l.borrow_mut().take())
+}
